@@ -6,65 +6,35 @@
    the expected result of Canonicalize (Report!Canon, both with and without KeepDuplicates);
    the driver builds each permuted list through the public constructors, canonicalizes, and
    checks order-independence, idempotence and conformance to the documented order.
+   The universe of diagnostics is ReportUniverse!Universe.                                    *)
+EXTENDS ReportUniverse, Json
 
-   Universe: all diagnostics that differ from Base in at most Dist of the dimensions
-     path x stage x start x end x tag x message x level x extra.                             *)
-EXTENDS Report, Json
-
-CONSTANTS MaxDiags, Dist, ExportMin, BaseTag
-
-FA == [path |-> "a.proto", text |-> <<"a", "b", "c">>]
-FB == [path |-> "b.proto", text |-> <<"a", "b">>]
-Files == {FA, FB}
-FileOf(p) == CHOOSE f \in Files : f.path = p
-
-PathDim  == {"", "a.proto", "b.proto"}      \* "" = no annotation at all (no primary span)
-StageDim == {0, 1}
-StartDim == {0, 1}
-EndDim   == {1, 2}
-TagDim   == {"", "t", "u"}
-MsgDim   == {"m", "n"}
-LevelDim == {"error", "warning"}
-ExtraDim == {"", "note", "help", "debug", "ann2", "infile"}
-
-Vec == [path : PathDim, stage : StageDim, start : StartDim, end : EndDim, tag : TagDim,
-        msg : MsgDim, level : LevelDim, extra : ExtraDim]
-Base == [path |-> "a.proto", stage |-> 0, start |-> 0, end |-> 1, tag |-> BaseTag,
-         msg |-> "m", level |-> "error", extra |-> ""]
-Dims == {"path", "stage", "start", "end", "tag", "msg", "level", "extra"}
-Distance(v) == Cardinality({k \in Dims : v[k] # Base[k]})
-
-(* the diagnostic a vector stands for, built with the constructor operators *)
-Build(v) ==
-  LET d0 == NewDiag(v.level, v.msg, v.stage)
-      d1 == IF v.tag = "" THEN d0 ELSE WithTag(d0, v.tag)
-      d2 == IF v.extra = "infile" THEN WithInFile(d1, "z.proto") ELSE d1
-      d3 == IF v.path = "" THEN d2 ELSE WithSnippet(d2, FileOf(v.path), v.start, v.end, "")
-      d4 == IF v.extra = "ann2" /\ v.path # "" THEN WithSnippet(d3, FB, 0, 0, "am") ELSE d3
-      d5 == IF v.extra = "note" THEN WithNote(d4, "x1") ELSE d4
-      d6 == IF v.extra = "help" THEN WithHelp(d5, "x1") ELSE d5
-      d7 == IF v.extra = "debug" THEN WithDebug(d6, "x1") ELSE d6
-  IN d7
-
-Universe == {Build(v) : v \in {w \in Vec : Distance(w) <= Dist}}
-
-TieKeyInjective == \A a, b \in Universe : FullKey(a) = FullKey(b) => a = b
-ASSUME TieKeyInjective
+CONSTANTS MaxDiags, ExportMin
 
 (* For speed the state holds INDICES into U, the universe sorted by Report!FullLess (evaluated
    once); comparing indices is comparing diagnostics, and the duplicate / tie relations are
    tables.  The ASSUMEs tie the tables to the Report operators.                               *)
 RECURSIVE SetAsSeq(_)
 SetAsSeq(S) == IF S = {} THEN <<>> ELSE LET x == CHOOSE y \in S : TRUE IN <<x>> \o SetAsSeq(S \ {x})
-U == SortSeq(SetAsSeq(Universe), FullLess)
-N == Len(U)
-DupTab == [i \in 1..N |-> {j \in 1..N : SameDup(U[i], U[j])}]
-TieTab == [i \in 1..N |-> {j \in 1..N : DocTie(U[i], U[j])}]
-DocLessTab == [i \in 1..N |-> {j \in 1..N : DocLess(U[i], U[j])}]
+KU == SortSeq(SetAsSeq(Keyed), LAMBDA a, b : LexLess(a[1], b[1]))
+N  == Len(KU)
+U  == [i \in 1..N |-> KU[i][2]]
+FK == [i \in 1..N |-> KU[i][1]]                  \* Report!FullKey, evaluated once per diagnostic
+DK == [i \in 1..N |-> SubSeq(FK[i], 1, 6)]       \* Report!DocKey is its first six components
+PR == [i \in 1..N |-> Primary(U[i])]
+DupTab == [i \in 1..N |-> {j \in 1..N : U[i].tag # "" /\ U[i].tag = U[j].tag /\ PR[i] = PR[j]}]
+TieTab == [i \in 1..N |-> {j \in 1..N : DK[i] = DK[j] /\ i # j}]
+DocLessTab == [i \in 1..N |-> {j \in 1..N : LexLess(DK[i], DK[j])}]
 ILess(i, j) == i < j
 IDup(i, j)  == j \in DupTab[i]
-ASSUME \A i, j \in 1..N : (i < j) <=> FullLess(U[i], U[j])
-ASSUME \A i, j \in 1..N : DocLess(U[i], U[j]) => i < j          \* FullLess extends the documented order
+ASSUME \A i \in 1..N : DK[i] = DocKey(U[i])
+ASSUME \A i, j \in 1..N : (i < j) <=> LexLess(FK[i], FK[j])      \* index order = Report!FullLess
+ASSUME \A i, j \in 1..N : j \in DocLessTab[i] => i < j           \* FullLess extends the documented order
+(* the tables agree with the Report operators (spot check on neighbours in the sorted order) *)
+ASSUME \A i \in 1..N : \A j \in {i, IF i < N THEN i + 1 ELSE 1} :
+          /\ (j \in DupTab[i]) = SameDup(U[i], U[j])
+          /\ (j \in TieTab[i]) = DocTie(U[i], U[j])
+          /\ (j \in DocLessTab[i]) = DocLess(U[i], U[j])
 
 Deref(L) == [i \in 1..Len(L) |-> U[L[i]]]
 CanonI(L, keep) == CanonBy(L, ILess, IDup, keep)
